@@ -118,7 +118,7 @@ theorem C20_wallet_fault_not_cancelled (s : AState) (a : Acct) (hst : a.state = 
   cases hacts : resumeActs .initiated with
   | none => exact absurd hacts hlook
   | some acts =>
-    have hc : acts.contains "[onRestart || onRecovery]locateTxByOutput" = true := by
+    have hc : acts.contains "[onRecovery || onRestart]locateTxByOutput" = true := by
       have := Option.some.inj (hacts.symm.trans (show resumeActs State.initiated = some _ from rfl))
       subst this; decide
     have hf : fundOrLocate (write s a) a false true false none acts = .fail .err := by
@@ -216,9 +216,11 @@ theorem C20_advance_past (count minIndex : Nat) :
 
 /-- the regenerated shape of the sweep loop the model was written against -/
 theorem C20_sweep_shape :
-    Lifecycle.sweepStopCond = "MaxUnusedAccountKeyLookup < numNotFoundAccounts" ∧
+    Lifecycle.sweepStopCond = "MaxUnusedAccountKeyLookup < misses" ∧
     Lifecycle.sweepResets = true ∧ Lifecycle.sweepIncrements = true ∧
-    Lifecycle.recoverAccountCalls = ["DeriveSharedKey", "AddAccount", "resumeAccount(false,true,0)"] := by
+    -- the secret is re-derived before the record is stored, the stored record is resumed as a recovery
+    callsBefore Lifecycle.recoverAccountCalls "DeriveSharedKey" "AddAccount" = true ∧
+    callsBefore Lifecycle.recoverAccountCalls "AddAccount" "resumeAccount(false,true,0)" = true := by
   decide
 
 /-- non-vacuity: a hole of 50 unused keys is skipped, a hole of 51 ends the sweep -/
